@@ -66,8 +66,8 @@ func init() {
 											} else {
 												c.Arch = arch
 											}
-											if arch != "amd64" && arch != "arm5" && arch != "OVERRIDE" && (v != "1.2.3" || schema != "" || meta != "") {
-												continue // the full version product only for three architectures
+											if !env.Thorough() && arch != "amd64" && arch != "arm5" && arch != "OVERRIDE" && (v != "1.2.3" || schema != "" || meta != "") {
+												continue // quick: the full version product only for three architectures
 											}
 											if !yield(C15Case{Part: "name", Format: f, Cfg: c}) {
 												return
@@ -107,6 +107,26 @@ func init() {
 						c.Release = "2"
 						if !yield(C15Case{Part: "cli", Format: f, Cfg: c, Target: tg, WithP: true, Preexist: pe}) {
 							return
+						}
+					}
+				}
+			}
+			if env.Thorough() {
+				// the command line over the full product of target spelling x -p x config location x pre-existing target x version shape
+				for _, f := range Formats {
+					for _, tg := range []string{"file", "dir", "empty", "foreign-ext", "nested-missing-dir"} {
+						for _, wp := range []bool{true, false} {
+							for _, el := range []bool{false, true} {
+								for _, pe := range []string{"", "larger", "smaller"} {
+									for _, vc := range []struct{ v, ep, pre, meta, rel string }{{"1.2.3", "", "", "", ""}, {"v1.2.3", "2", "rc-2", "git", "3"}, {"1.2.3+git-abc123", "", "beta1", "", "3"}} {
+										c := baseMeta()
+										c.Version, c.Epoch, c.Prerelease, c.Metadata, c.Release = vc.v, vc.ep, vc.pre, vc.meta, vc.rel
+										if !yield(C15Case{Part: "cli", Format: f, Cfg: c, Target: tg, WithP: wp, Elsewhere: el, Preexist: pe}) {
+											return
+										}
+									}
+								}
+							}
 						}
 					}
 				}
